@@ -60,7 +60,26 @@ func (m StringifiedMessage) TagType() byte {
 func (m StringifiedMessage) MarshalNBT(w io.Writer) error {
 	d := decodeState{data: []byte(m)}
 	d.scan.reset()
-	return writeValue(NewEncoder(w), &d, false, "")
+	if err := writeValue(NewEncoder(w), &d, false, ""); err != nil {
+		return err
+	}
+	return d.checkEnd()
+}
+
+// checkEnd reports an error unless the text ends right after the value just converted:
+// an unterminated list or compound, or anything but white space following the
+// top-level value, is a syntax error.
+func (d *decodeState) checkEnd() error {
+	for d.off < len(d.data) {
+		if d.scan.step(&d.scan, d.data[d.off]) == scanError {
+			return d.error(d.scan.errContext)
+		}
+		d.off++
+	}
+	if d.scan.eof() == scanError {
+		return d.error(d.scan.errContext)
+	}
+	return nil
 }
 
 func (m *StringifiedMessage) UnmarshalNBT(tagType byte, r DecoderReader) error {
